@@ -150,16 +150,18 @@ inductive StepRel (cfg : Cfg) (s : State) : Label → State → Prop
       StepRel cfg s (.task i)
         (finishTask cfg { s with log := s.log ++ [i], cbLock := false
                                  cbIn := if (cfg.pool (cfg.poolOf i)).innerCb
-                                   then s.cbIn.set (cfg.poolOf i) false else s.cbIn } i false)
+                                   then s.cbIn.set (cfg.poolOf i) false else s.cbIn
+                                 tLocks := s.tLocks.set (cfg.obj i) false } i false)
   | cbOk (i : Nat) : s.tasks[i]? = some .cbBody → cfg.cbFails i = false →
       StepRel cfg s (.task i)
         { s with log := s.log ++ [i], cbLock := false
                  cbIn := if (cfg.pool (cfg.poolOf i)).innerCb
                    then s.cbIn.set (cfg.poolOf i) false else s.cbIn
-                 tasks := s.tasks.set i .tAcq }
+                 tasks := s.tasks.set i .bAcq }
   | tAcq (i : Nat) : s.tasks[i]? = some .tAcq → s.tLocks.getD (cfg.obj i) false = false →
       StepRel cfg s (.task i)
-        { s with tLocks := s.tLocks.set (cfg.obj i) true, tasks := s.tasks.set i .bAcq }
+        { s with tLocks := s.tLocks.set (cfg.obj i) true
+                 tasks := s.tasks.set i (afterT cfg (cfg.poolOf i)) }
   | bTry (i : Nat) (p : Pc) : s.tasks[i]? = some p → (p = .bAcq ∨ p = .woken) →
       StepRel cfg s (.task i) (budgetTry cfg s i)
   | writeFail (i : Nat) : s.tasks[i]? = some .write → cfg.fails i = true →
@@ -247,6 +249,10 @@ theorem stepRel_of_step {cfg : Cfg} {s s' : State} {l : Label} (h : step cfg s l
       · rename_i hp
         split at h
         · simp at h
+        · rename_i hc; simp at h; subst h; exact .tAcq i hp (by simpa using hc)
+      · rename_i hp
+        split at h
+        · simp at h
         · rename_i hc; simp at h; subst h; exact .cbAcqIn i hp (by simpa using hc)
       · rename_i hp
         split at h
@@ -256,10 +262,6 @@ theorem stepRel_of_step {cfg : Cfg} {s s' : State} {l : Label} (h : step cfg s l
         split at h
         · simp at h; subst h; exact .cbFail i hp ‹_›
         · rename_i hc; simp at h; subst h; exact .cbOk i hp (by simpa using hc)
-      · rename_i hp
-        split at h
-        · simp at h
-        · rename_i hc; simp at h; subst h; exact .tAcq i hp (by simpa using hc)
       · rename_i hp; simp at h; subst h; exact .bTry i _ hp (Or.inl rfl)
       · rename_i hp; simp at h; subst h; exact .bTry i _ hp (Or.inr rfl)
       · rename_i hp
